@@ -28,6 +28,8 @@ type Server struct {
 	IDs []int64
 	// Answer, when non-nil, is asked first for the rows of a statement.
 	Answer func(sql string) (cols []string, rows [][]driver.Value, ok bool)
+	// Eval, when non-nil, answers every query (an error is returned to the caller).
+	Eval func(sql string) (cols []string, rows [][]driver.Value, err error)
 }
 
 func (s *Server) Take() []string {
@@ -41,6 +43,11 @@ func (s *Server) Take() []string {
 // Open returns a *bun.DB over the fake server.
 func Open(s *Server) *bun.DB {
 	return bun.NewDB(sql.OpenDB(connector{s}), pgdialect.New())
+}
+
+// OpenDiscard opens the database the way the ledger does (sqlutils.OpenSQLDB): columns the model does not know are dropped.
+func OpenDiscard(s *Server) *bun.DB {
+	return bun.NewDB(sql.OpenDB(connector{s}), pgdialect.New(), bun.WithDiscardUnknownColumns())
 }
 
 type connector struct{ s *Server }
@@ -125,7 +132,15 @@ func (s *Server) query(q string) (driver.Rows, error) {
 	s.Statements = append(s.Statements, q)
 	ids := append([]int64{}, s.IDs...)
 	answer := s.Answer
+	eval := s.Eval
 	s.mu.Unlock()
+	if eval != nil {
+		cols, data, err := eval(q)
+		if err != nil {
+			return nil, err
+		}
+		return &rows{cols: cols, data: data}, nil
+	}
 	if answer != nil {
 		if cols, data, ok := answer(q); ok {
 			return &rows{cols: cols, data: data}, nil
